@@ -82,7 +82,12 @@ fn insert_ssa_variables_impl<Cfg: SSAConfig>(
         successor_block.update_phi_statements(env);
     }
     // 3. Update dominator tree successors recursively.
-    for successor_index in dominator_tree.get_dominator_successors(current_index) {
+    // The successors are visited in a fixed order, since the order determines the versions
+    // assigned to variables (and which error is returned if there is more than one).
+    let mut dominator_successors =
+        dominator_tree.get_dominator_successors(current_index).into_iter().collect::<Vec<_>>();
+    dominator_successors.sort_unstable();
+    for successor_index in dominator_successors {
         env.add_variable_scope();
         insert_ssa_variables_impl::<Cfg>(successor_index, basic_blocks, dominator_tree, env)?;
         env.remove_variable_scope();
